@@ -365,7 +365,10 @@ def loop_iteration_corner_cases(ctx: Ctx, kind: str) -> None:
     trmod = importlib.import_module("pynenc.runner.thread_runner")
 
     def judge(app, runner, invs, what: str, err) -> None:
-        flush(app)
+        try:
+            flush(app)
+        except BaseException as e:  # noqa: BLE001   (a stop that blew up can leave a history writer that was never started)
+            err = err or f"(flush) {type(e).__name__}: {e}"
         q = queue_of(app)
         o = app.orchestrator
         for inv in invs:
